@@ -60,11 +60,11 @@ def embedded_source(c_text):
     return emb, marked
 
 
-def gate():
+def gate(cpath=None):
     """True iff every .pyx line quoted in the .c (compiled lines and their context) equals the current .pyx
     line of that number; an inserted/removed line shifts the numbering and fails the gate."""
     pyx = open(_src("fast_likelihood.pyx")).read()
-    cpath = _src("fast_likelihood.c")
+    cpath = cpath or _src("fast_likelihood.c")
     if not os.path.exists(cpath):
         return False, "no generated .c present", 0
     emb, marked = embedded_source(open(cpath, errors="replace").read())
@@ -80,10 +80,45 @@ def gate():
 
 
 # ------------------------------------------------------------------ rebuild from .c
-def build_from_c():
+def patched_c():
+    """The generated .c of /repo does not match the .pyx: try the hand patches recorded under /verif/repo_untracked/
+    (equivalents of `fix:` commits to the .pyx, see its README) on a COPY; returns the path of a copy that passes the gate."""
+    import glob
+    import shutil
+    src = _src("fast_likelihood.c")
+    if not os.path.exists(src):
+        return None
+    diffs = sorted(glob.glob(os.path.join(VERIF, "repo_untracked", "fast_likelihood.c.*.diff")))
+    if not diffs:
+        return None
+    h = hashlib.sha256(open(src, "rb").read())
+    for d in diffs:
+        h.update(open(d, "rb").read())
+    dst_dir = os.path.join(VERIF, ".work", "kernel", "patched-" + h.hexdigest()[:20])
+    dst = os.path.join(dst_dir, "fast_likelihood.c")
+    if not os.path.exists(dst):
+        os.makedirs(dst_dir, exist_ok=True)
+        tmp = dst + ".tmp%d" % os.getpid()
+        shutil.copy(src, tmp)
+        for d in diffs:
+            p = subprocess.run(["patch", "-s", "-N", "-r", "-", tmp, d], capture_output=True, text=True)
+            if p.returncode != 0:
+                os.unlink(tmp)
+                for junk in (tmp + ".orig", tmp + ".rej"):
+                    if os.path.exists(junk):
+                        os.unlink(junk)
+                return None
+        if os.path.exists(tmp + ".orig"):
+            os.unlink(tmp + ".orig")
+        os.replace(tmp, dst)
+    ok, why, nq = gate(dst)
+    return dst if ok else None
+
+
+def build_from_c(c=None):
     import numpy as np
     import twobody
-    c = _src("fast_likelihood.c")
+    c = c or _src("fast_likelihood.c")
     tb = os.path.dirname(twobody.__file__)
     tbc = os.path.join(tb, "src", "twobody.c")
     h = hashlib.sha256()
@@ -308,11 +343,18 @@ def resolve(force=None):
         INFO["cython"] = False
     ok, why, nq = gate()
     INFO["gate"] = {"equal": ok, "detail": why, "quoted_lines": nq}
+    cpatched = None
     if mode is None:
-        mode = "c" if ok else "shim"
+        if ok:
+            mode = "c"
+        else:
+            cpatched = patched_c()
+            mode = "c" if cpatched else "shim"
     if mode == "c":
-        so = build_from_c()
-        INFO["kernel"] = "rebuilt-from-c"
+        so = build_from_c(cpatched)
+        INFO["kernel"] = "rebuilt-from-c" if not cpatched else "rebuilt-from-c+recorded-patch"
+        if cpatched:
+            INFO["gate_after_recorded_patch"] = "equal"
         INFO["path"] = so
 
         def factory():
@@ -340,17 +382,67 @@ def resolve(force=None):
     return INFO
 
 
+def cross_check(force=False):
+    """Compiled kernel in use: evaluate a fixed problem (two surveys, poly_trend 2, non-zero jitter, eccentric orbit) with the
+    compiled module AND with the shim rendering of the current .pyx; they must agree to 1e-9.  Cached per built .so."""
+    if not INFO.get("kernel", "").startswith("rebuilt-from-c"):
+        return None
+    marker = os.path.join(os.path.dirname(INFO["path"]), "crosscheck-%s.ok" % INFO["pyx_sha256"][:16])
+    if os.path.exists(marker) and not force:
+        INFO["shim_vs_compiled"] = "agreed (cached)"
+        return True
+    import types
+    import warnings
+    warnings.filterwarnings("ignore")
+    import numpy as np
+    import astropy.units as u
+    from astropy.time import Time
+    import thejoker as tj
+    from thejoker.src import fast_likelihood as fl
+    from thejoker.likelihood_helpers import get_trend_design_matrix
+    from thejoker.data_helpers import validate_prepare_data
+    src = render_pyx(open(_src("fast_likelihood.pyx")).read())
+    shim = types.ModuleType("thejoker.src._fast_likelihood_shim")
+    shim.__file__ = _src("fast_likelihood.pyx")
+    exec(compile(src, "shim", "exec"), shim.__dict__)
+    rng = np.random.default_rng(5)
+    t1 = Time(55000.0 + np.sort(rng.uniform(0, 50, 5)), format="mjd", scale="tcb")
+    t2 = Time(55060.0 + np.sort(rng.uniform(0, 50, 4)), format="mjd", scale="tcb")
+    d1 = tj.RVData(t1, rng.normal(0, 5, 5) * u.km / u.s, rng.uniform(0.2, 1, 5) * u.km / u.s)
+    d2 = tj.RVData(t2, rng.normal(0, 5, 4) * u.km / u.s, rng.uniform(0.2, 1, 4) * u.km / u.s)
+    import pymc as pm
+    with pm.Model():
+        dv = tj.units.with_unit(pm.Normal("dv0_1", 0, 3.0), u.km / u.s) if hasattr(tj, "units") else None
+        prior = tj.JokerPrior.default(P_min=2 * u.day, P_max=64 * u.day, sigma_K0=30 * u.km / u.s,
+                                      sigma_v=[50 * u.km / u.s, 2 * u.km / u.s / u.day], s=0.7 * u.km / u.s,
+                                      poly_trend=2, v0_offsets=[dv])
+    data, ids, M = validate_prepare_data([d1, d2], prior.poly_trend, prior.n_offsets)
+    chunk = np.array([[7.3, 0.31, 1.1, 2.2, 0.7], [23.0, 0.0, 0.3, 4.0, 0.0], [3.1, 0.8, 5.0, 0.5, 2.5]])
+    vals = []
+    for mod in (fl, shim):
+        h = mod.CJokerHelper(data, prior, M)
+        ll = np.array(h.batch_marginal_ln_likelihood(chunk))
+        g = np.random.default_rng(1)
+        ps = np.array(h.batch_get_posterior_samples(chunk, 1, g)[0])
+        vals.append((ll, ps))
+    dll = float(np.max(np.abs(vals[0][0] - vals[1][0])))
+    dps = float(np.max(np.abs(vals[0][1] - vals[1][1])))
+    INFO["shim_vs_compiled"] = {"max_abs_diff_ll": dll, "max_abs_diff_posterior_draw": dps}
+    if not (dll < 1e-9 and dps < 1e-7):
+        raise KernelError("compiled kernel (%s) and the rendering of the current .pyx disagree: %r" % (INFO["kernel"], INFO["shim_vs_compiled"]))
+    open(marker, "w").write(repr(INFO["shim_vs_compiled"]))
+    return True
+
+
 def main():
     info = resolve()
     import numpy as np
     import thejoker  # noqa: F401
     from thejoker.src import fast_likelihood as fl
     print("kernel:", info["kernel"], "| gate:", info["gate"]["detail"], "| module file:", getattr(fl, "__file__", "?"))
-    # smoke: shim and compiled kernel agree on a fixed input (only when the gate says they render the same source)
-    if info["kernel"] == "rebuilt-from-c":
-        src = render_pyx(open(_src("fast_likelihood.pyx")).read())
-        compile(src, "shim", "exec")
-        print("shim renders and compiles: ok")
+    if info["kernel"].startswith("rebuilt-from-c"):
+        cross_check(force=True)
+        print("shim rendering of the current .pyx vs compiled kernel:", info["shim_vs_compiled"])
     return 0
 
 
